@@ -49,6 +49,12 @@ CHECKS.update({
     "C19": dict(text="serde through an exact in-memory token Serializer/Deserializer for every vector, mask, quaternion, matrix and affine type (N scalars in lane/column-major order, round trip bit-identical, every other length 0..N+2 rejected), identical reference for the SSE2 and scalar-math builds; bytemuck Pod types: no padding, element order, cast identity, zeroed; mint identity and row/column semantics. rkyv and JSON text NOT decided", design="4/C19", tech=E1),
     "C20": dict(text="differential harnesses between /repo and a copy of the same tree built with glam-assert: for every asserting method the two builds return bit-identical results whenever the asserting build does not panic; must-panic / must-not-panic pairs for the documented preconditions on the asserting build. Numeric closure of chains (rounding stays inside the 2e-4 tolerances) NOT decided", design="4/C20", tech=E1 + "; two-tree differential"),
 })
+CHECKS.update({
+    "C07": dict(text="target-feature independence at 0 bits: ~560 kernels over the public API of the SIMD-backed and plain types are built for default SSE2 and for +fma,+avx2 (thorough: +sse4.1) and their optimised IR executed symbolically with every IEEE and bit-level operation uninterpreted; path conditions and output DAGs must be identical, differences are replayed natively on both builds. SIMD vs scalar-math equality follows from both builds being proved equal to the same per-lane primitive / real-function references in C01-C06, C09-C17. Debug/Display identity and core-simd NOT decided", design="4/C07", tech="symbolic execution of the optimised LLVM IR of two builds with all operations uninterpreted (mode U), structural / z3 QF_UF comparison of the operation DAGs, native differential replay", engine="E2", note=E2N),
+})
+CHECKS["C01"]["text"] += "; float `%` is decided on the optimised IR: each output lane must be LLVM's frem of that lane's operands (mode U), natively replayed otherwise"
+CHECKS["C01"]["engine"] = "E1+E2"
+CHECKS["C06"]["engine"] = "E1+E2"
 NA = {}
 
 
